@@ -1122,7 +1122,7 @@ def main(run):
         return iso.is_iso(src_) and ((src_[1] == "docx" and str(src_[2]).startswith("ommlfail")) or (src_[1] in ("deep-html", "deep-mhtml") and src_[2] != "d300"))
     failing = [st for st in iso_steps if fails_deep(st)] + damaged_iso
     formula_good = [st for st in iso_steps if iso.is_iso(st[1]["src"]) and str(st[1]["src"][2]).startswith("ommlgood")] + [["pptx", {"src": ["fx", "modern_ms/pptx_formula_image.pptx"], "op": None}, 1]]
-    good = [st for st in iso_steps if not fails_deep(st) and not risky(st)]
+    good = [st for st in iso_steps if not fails_deep(st) and not (iso.is_iso(st[1]["src"]) and iso.feature(st[1]["src"], st[0]) in iso.RISKY_FEATURES)]
     for i in range(run.n(8, 40)):
         steps = []
         for _ in range(rng.randint(3, 6)):
